@@ -14,11 +14,16 @@
 package main
 
 import (
+	"bytes"
+	"crypto/sha1"
 	"encoding/json"
 	"fmt"
+	"io/ioutil"
 	"os"
 	"path/filepath"
 	"runtime"
+	"sort"
+	"syscall"
 
 	"github.com/openebs/jiva/replica"
 	"github.com/openebs/jiva/types"
@@ -35,6 +40,134 @@ type Op struct {
 	B        bool   `json:"b,omitempty"`
 	Tok      int64  `json:"tok,omitempty"`
 	MaxChain int    `json:"maxchain,omitempty"`
+	Source   string `json:"source,omitempty"` // replace: the source disk
+	Cont     bool   `json:"cont,omitempty"`   // go on after the operation: copy the directory, observe the memory, Close
+}
+
+// what the process holds in memory when the operation has returned (same layout as cmd/meta's Obs)
+type DiskObs struct {
+	Parent      string   `json:"parent"`
+	Removed     bool     `json:"removed"`
+	UserCreated bool     `json:"user"`
+	Created     string   `json:"created"`
+	Rev         int64    `json:"rev"`
+	Children    []string `json:"children"`
+}
+
+type InfoObs struct {
+	Head       string `json:"head"`
+	Parent     string `json:"parent"`
+	Size       int64  `json:"size"`
+	Checkpoint string `json:"checkpoint"`
+	Dirty      bool   `json:"dirty"`
+	Rebuilding bool   `json:"rebuilding"`
+	Rev        int64  `json:"rev"`
+}
+
+type MemObs struct {
+	Open     bool               `json:"open"`
+	Mode     string             `json:"mode,omitempty"`
+	Chain    []string           `json:"chain"`
+	ChainErr bool               `json:"chainerr,omitempty"`
+	Disks    map[string]DiskObs `json:"disks,omitempty"`
+	Info     *InfoObs           `json:"info,omitempty"`
+	Live     string             `json:"live,omitempty"`
+}
+
+func fingerprint(b []byte) string {
+	return fmt.Sprintf("%x", sha1.Sum(bytes.TrimRight(b, "\x00")))
+}
+
+func observeMem(r *replica.Replica) (o MemObs) {
+	if r == nil {
+		return
+	}
+	defer func() {
+		if p := recover(); p != nil {
+			o.ChainErr = true
+		}
+	}()
+	o.Open = true
+	o.Mode = r.GetReplicaMode()
+	c, err := r.Chain()
+	if err != nil {
+		o.ChainErr = true
+	} else {
+		o.Chain = c
+	}
+	o.Disks = map[string]DiskObs{}
+	for n, d := range r.ListDisks() {
+		ch := append([]string{}, d.Children...)
+		sort.Strings(ch)
+		o.Disks[n] = DiskObs{Parent: d.Parent, Removed: d.Removed, UserCreated: d.UserCreated, Created: d.Created,
+			Rev: d.RevisionCounter, Children: ch}
+	}
+	i := r.Info()
+	o.Info = &InfoObs{Head: i.Head, Parent: i.Parent, Size: i.Size, Checkpoint: i.Checkpoint, Dirty: i.Dirty,
+		Rebuilding: i.Rebuilding, Rev: i.RevisionCounter}
+	if i.Size > 0 && i.Size <= 64*blk {
+		buf := make([]byte, i.Size)
+		if _, err := r.ReadAt(buf, 0); err == nil {
+			o.Live = fingerprint(buf)
+		} else {
+			o.Live = "readerr"
+		}
+	}
+	return
+}
+
+// copyTree copies the regular files of src to dst keeping the hard-link structure and the holes
+// (in this process: a child process under strace would be subject to the same injection).
+func copyTree(src, dst string) error {
+	os.RemoveAll(dst)
+	if err := os.MkdirAll(dst, 0700); err != nil {
+		return err
+	}
+	ents, err := ioutil.ReadDir(src)
+	if err != nil {
+		return err
+	}
+	first := map[uint64]string{}
+	zero := make([]byte, blk)
+	for _, fi := range ents {
+		if !fi.Mode().IsRegular() {
+			continue
+		}
+		st, _ := fi.Sys().(*syscall.Stat_t)
+		to := filepath.Join(dst, fi.Name())
+		if st != nil {
+			if f0, ok := first[st.Ino]; ok {
+				if err := os.Link(f0, to); err != nil {
+					return err
+				}
+				continue
+			}
+			first[st.Ino] = to
+		}
+		b, err := ioutil.ReadFile(filepath.Join(src, fi.Name()))
+		if err != nil {
+			return err
+		}
+		f, err := os.OpenFile(to, os.O_CREATE|os.O_WRONLY|os.O_TRUNC, 0600)
+		if err != nil {
+			return err
+		}
+		if st != nil && st.Blocks == 0 {
+			// nothing allocated: keep it that way
+			f.Truncate(int64(len(b)))
+		} else if len(b)%blk != 0 || len(b) < blk {
+			f.Write(b)
+		} else {
+			f.Truncate(int64(len(b)))
+			for off := 0; off < len(b); off += blk {
+				if !bytes.Equal(b[off:off+blk], zero) {
+					f.WriteAt(b[off:off+blk], int64(off))
+				}
+			}
+		}
+		f.Close()
+	}
+	return nil
 }
 
 const blk = 4096
@@ -107,7 +240,13 @@ func main() {
 		acts, err = r.PrepareRemoveDisk(op.Name)
 		actions = len(acts)
 	case "revert":
-		_, err = r.Revert(op.Name, op.Created)
+		var nr *replica.Replica
+		nr, err = r.Revert(op.Name, op.Created)
+		if err == nil && nr != nil {
+			r = nr // Server.Revert: s.r = the reloaded replica
+		}
+	case "replace":
+		err = r.ReplaceDisk(op.Name, op.Source)
 	case "resize":
 		err = r.Resize(fmt.Sprintf("%d", op.Size))
 	case "checkpoint":
@@ -122,6 +261,21 @@ func main() {
 	if err != nil {
 		out["res"] = "err"
 		out["err"] = err.Error()
+	}
+	if op.Cont {
+		// the process goes on: the directory as the operation left it is kept aside, the memory is
+		// observed, and a regular Close rewrites volume.meta from memory
+		if cerr := copyTree(dir, dir+".atE"); cerr != nil {
+			out["conterr"] = cerr.Error()
+		}
+		out["mem"] = observeMem(r)
+		out["cres"] = "ok"
+		if r != nil {
+			if cerr := r.Close(); cerr != nil {
+				out["cres"] = "err"
+				out["cerr"] = cerr.Error()
+			}
+		}
 	}
 	b, _ := json.Marshal(out)
 	fmt.Println(string(b))
